@@ -78,6 +78,9 @@ where
                     self.repeat
                 );
                 if self.repeat.again() {
+                    // A trailing partial sample does not belong in front of
+                    // the next repetition.
+                    self.buf.clear();
                     self.f.seek(std::io::SeekFrom::Start(0))?;
                     // This is not quite the definition of "pending", but I
                     // wanted to get rid of Noop, and it'll do for now.
